@@ -72,17 +72,16 @@ functions += [
                (r'probability_table_\[i\]', 'self->probability_table_.data[i]', 2), (r'lut_table_\[j\]', 'self->lut_table_.data[j]', 1)],
      'loops': {0: '__CPROVER_assigns(i, cum_prob, act_prob, __CPROVER_object_whole(self->probability_table_.data), __CPROVER_object_whole(self->lut_table_.data))\n'
                   '__CPROVER_loop_invariant(i <= num_symbols && cum_prob == act_prob && cum_prob <= (uint32_t)rans_precision)\n'
-                  '__CPROVER_loop_invariant(ghost_sym >= i || (self->probability_table_.data[ghost_sym].prob == token_probs[ghost_sym] && '
-                  'self->probability_table_.data[ghost_sym].cum_prob + self->probability_table_.data[ghost_sym].prob <= cum_prob))\n'
+                  '__CPROVER_loop_invariant(ghost_sym >= i || self->probability_table_.data[ghost_sym].prob == token_probs[ghost_sym])\n'
                   '__CPROVER_loop_invariant(ghost_rem >= act_prob || (self->lut_table_.data[ghost_rem] < i && '
                   'self->probability_table_.data[self->lut_table_.data[ghost_rem]].cum_prob <= ghost_rem && '
-                  'ghost_rem < self->probability_table_.data[self->lut_table_.data[ghost_rem]].cum_prob + self->probability_table_.data[self->lut_table_.data[ghost_rem]].prob))\n'
+                  'ghost_rem - self->probability_table_.data[self->lut_table_.data[ghost_rem]].cum_prob < self->probability_table_.data[self->lut_table_.data[ghost_rem]].prob))\n'
                   '__CPROVER_decreases(num_symbols - i)',
                1: '__CPROVER_assigns(j, __CPROVER_object_whole(self->lut_table_.data))\n'
-                  '__CPROVER_loop_invariant(act_prob <= j && j <= cum_prob)\n'
+                  '__CPROVER_loop_invariant(act_prob <= j && (j <= cum_prob || j == act_prob))\n'
                   '__CPROVER_loop_invariant(ghost_rem >= j || ghost_rem < act_prob || self->lut_table_.data[ghost_rem] == i)\n'
                   '__CPROVER_loop_invariant(ghost_rem >= act_prob || self->lut_table_.data[ghost_rem] == __CPROVER_loop_entry(self->lut_table_.data[ghost_rem < (uint32_t)rans_precision ? ghost_rem : 0]))\n'
-                  '__CPROVER_decreases(cum_prob - j)'}},
+                  '__CPROVER_decreases(cum_prob < j ? 0 : cum_prob - j)'}},
 ]
 
 UNIT = {'name': 'ans', 'structs': structs, 'consts': consts, 'raw': raw, 'functions': functions,
@@ -117,15 +116,19 @@ for P in [12, 13, 14, 15, 16, 17, 18, 19, 20]:
     J('rans.read_init.safe.P%d' % P, 'h_rans_read_init_safe', ['C08', 'C02'], defines=d, tier=t)
     J('rans.fetch_sym.contract.P%d' % P, 'h_enf_RAnsDecoder_fetch_sym', ['C08', 'C02'], enforce='RAnsDecoder_fetch_sym', defines=d, tier=t)
     J('rans.rans_read.contract.P%d' % P, 'h_enf_RAnsDecoder_rans_read', ['C08', 'C02'], enforce='RAnsDecoder_rans_read', replace=['RAnsDecoder_fetch_sym'], loops=True, defines=d, tier=t)
-    J('rans.lut.contract.P%d' % P, 'h_enf_RAnsDecoder_rans_build_look_up_table', ['C08', 'C02', 'C18'], enforce='RAnsDecoder_rans_build_look_up_table',
-      replace=['vec_u32_resize', 'vec_sym_resize'], loops=True, defines=d, tier=t, timeout=1500, cost=8)
-    J('rans.step.P%d' % P, 'h_rans_step', ['C08'], defines=d, unwind=4, unwind_reason='renormalisation loop emits <= 2 bytes (state < 2^(P+10), threshold >= 2^(P+2)... checked by the unwinding assertion)', native=True,
-      tier=t, timeout=1500, cost=9)
+    J('rans.lut.harness.P%d' % P, 'h_rans_lut', ['C08', 'C02', 'C18'], replace=['vec_u32_resize', 'vec_sym_resize'], loops=True, defines=d, tier=t, timeout=1500, cost=8)
+    for k in range(0, P + 1):
+        lo, hi = 1 << k, min((1 << (k + 1)) - 1, 1 << P)
+        J('rans.step.P%d.prob_2e%d' % (P, k), 'h_rans_step', ['C08'], defines=d + ['-DRS_PROB_LO=%d' % lo, '-DRS_PROB_HI=%d' % hi], unwind=4,
+          unwind_reason='renormalisation loop emits <= 2 bytes (checked by the unwinding assertion)', native=True, tier=t, timeout=1500, cost=9)
 TYPES_PRELUDE = ['vec_ans.h', 'core_types.h']
 SLICE_PRELUDE = []
 NATIVE_SOURCES = ['src/draco/core/divide.cc']
-COSIM = False
+COSIM = True
 ASSUMPTIONS = ['RAnsDecoder<P>::read_init reads buf[offset-4] for tag 3 without checking offset >= 4: three readable bytes before buf are an ASSUMED caller-history precondition (true at both call sites)',
                'std::vector resize of lut_table_/probability_table_ modelled by contract-only stubs (size()==n afterwards, storage of the given capacity)',
                'rans_build_look_up_table requires token_probs[k] < 2^22 (what RAnsSymbolDecoder::Create can decode); otherwise cum_prob may wrap (defined behaviour, memory safe, but the LUT consistency postcondition is not claimed)',
                'uabs_* functions of ans.h are unused by the codec and are not under contract']
+
+NATIVE_DEFS = ['-DRANS_P=12']
+NATIVE_SLICE_PRE = '#define rans_precision_bits_t RANS_P\nextern uint32_t ghost_rem, ghost_sym; extern int ghost_k;\n'
